@@ -113,7 +113,7 @@ import l2
 from gen import Gen
 
 POSITIONS = ["field", "vec", "option", "hashmap-value", "array", "slice", "generic-arg", "nested-generic", "box",
-             "tuple-variant", "struct-variant-field", "alias-target", "alias-vec", "unknown-generic", "same-head-nested"]
+             "tuple-variant", "struct-variant-field", "alias-target", "alias-vec", "unknown-generic", "same-head-nested", "pair-with-own-param"]
 # positions `get_dependencies` does not look into (open known finding `uncovered-reference-positions`)
 ORDER_LANGS = ["typescript", "python", "kotlin", "swift", "go"]
 
@@ -140,6 +140,8 @@ def ref_type(pos, target):
         return t_path("Ext", [t])                       # `Ext` is not a typeshared item of the file
     if pos == "same-head-nested":
         return t_path("Wrap", [t_path("Wrap", [t])])
+    if pos == "pair-with-own-param":
+        return t_path("Pair", [t_path("T"), t])          # the referring struct is generic over T
     if pos == "box":
         return t_path("Box", [t])
     raise ValueError(pos)
@@ -186,9 +188,12 @@ def build_program(rng, n, edges, renamed=(), const_alias=False):
         else:
             fs = [field([], "f%d" % k, ref_type(p, names[j])) for k, (_, j, p) in enumerate(mine)]
             fs.append(field([], "plain", t_path("u8")))
-            items.append({"kind": "struct", "attrs": attrs, "ident": names[i], "generics": [], "fields": ("named", fs)})
+            gens = [("ty", "T")] if any(p == "pair-with-own-param" for _, _, p in mine) else []
+            items.append({"kind": "struct", "attrs": attrs, "ident": names[i], "generics": gens, "fields": ("named", fs)})
     items.append({"kind": "struct", "attrs": list(ts), "ident": "Wrap", "generics": [("ty", "T")],
                   "fields": ("named", [field([], "inner", t_path("T"))])})
+    items.append({"kind": "struct", "attrs": list(ts), "ident": "Pair", "generics": [("ty", "A"), ("ty", "B")],
+                  "fields": ("named", [field([], "a", t_path("A")), field([], "b", t_path("B"))])})
     if const_alias:
         # a const whose declared type is a same-file alias (consts are emitted by TypeScript, Go and Python only)
         items.append({"kind": "alias", "attrs": list(ts), "ident": "NumAlias", "generics": [], "ty": t_path("u32")})
@@ -202,7 +207,7 @@ DEF_RX = {
     "python": r"^(?:class (\w+)\(|(\w+) = )",
     "kotlin": r"^(?:data class|sealed class|enum class|typealias|object|value class) (\w+)",
     "swift": r"^public (?:struct|enum|indirect enum|typealias) (\w+)",
-    "go": r"^type (\w+) ",
+    "go": r"^type (\w+)[ \[]",
 }
 
 
